@@ -65,9 +65,9 @@ func Schema(r *core.Rand, o *GenOpts) []*m.Item {
 	}
 	g.scalars = pickN(r, []string{"Date", "JSON", "Url"}, r.Intn(2*k))
 	g.enums = pickN(r, []string{"Color", "Colour", "Dir", "Unit"}, 1+r.Intn(k+1))
-	g.inputs = pickN(r, []string{"Filter", "Point", "Opts", "Choice", "Fliter"}, 1+r.Intn(k+1))
-	g.ifaces = pickN(r, []string{"Node", "Named", "Entity", "Res", "Nodes"}, r.Intn(2*k+1))
-	g.objects = pickN(r, []string{"User", "Post", "Comment", "Dog", "Doh", "Cat", "Dot"}, 2+r.Intn(2*k))
+	g.inputs = pickN(r, []string{"Filter", "Point", "Opts", "Choice", "Fliter", "FILTER"}, 1+r.Intn(k+1))
+	g.ifaces = pickN(r, []string{"Node", "Named", "Entity", "Res", "Nodes", "NODE"}, r.Intn(2*k+1))
+	g.objects = pickN(r, []string{"User", "Post", "Comment", "Dog", "Doh", "Cat", "Dot", "DOG", "dog"}, 2+r.Intn(2*k))
 	g.unions = pickN(r, []string{"SearchResult", "Pet", "Pat"}, r.Intn(k+1))
 	g.dirs = pickN(r, []string{"tag", "auth", "meta", "rep", "tags"}, 1+r.Intn(k+1))
 
